@@ -224,6 +224,8 @@ def _run_collection(job):
         members, all_terms = [], []
         for k, lengths in enumerate(lens_list):
             ds, terms = _sym_dataset(ctx, n, lengths, tag=f"d{k}", sym_bits=False)
+            if job.get("same_names"):
+                ds.cfg.name = "test"  # members may share a name (the library's own test configurations are all called "test")
             members.append(ds)
             all_terms.append(terms)
         coll = MazeDatasetCollection(MazeDatasetCollectionConfig(name="coll", maze_dataset_configs=[m.cfg for m in members]), members)
@@ -323,6 +325,9 @@ def _replay_collection(job, inputs, notes):
 
     members = [_concrete_dataset(job["n"], l, inputs, tag=f"d{k}", sym_bits=False) for k, l in enumerate(job["members"])]
     refs = [_concrete_dataset(job["n"], l, inputs, tag=f"d{k}", sym_bits=False) for k, l in enumerate(job["members"])]
+    if job.get("same_names"):
+        for m in members + refs:
+            m.cfg.name = "test"
     coll = MazeDatasetCollection(MazeDatasetCollectionConfig(name="coll", maze_dataset_configs=[m.cfg for m in members]), members)
     old = md.SERIALIZE_MINIMAL_THRESHOLD
     md.SERIALIZE_MINIMAL_THRESHOLD = job["thr"]
@@ -428,6 +433,8 @@ def jobs(tier, seed):
         out.append(dict(h="dispatch", n=3, lengths=v))
     for members, thr in [([[1, 2], [3]], None), ([[1, 2], [3]], 1), ([[2], [], [1, 1]], None), ([[], [2]], None)] + ([] if q else [([[1], [2, 2], [3]], 2), ([[], [], [1]], None)]):
         out.append(dict(h="collection", n=2, members=members, thr=thr))
+    for members, thr in [([[1, 2], [3]], None), ([[2], [1, 1], [3]], None)] + ([] if q else [([[1], [2, 2]], 1)]):
+        out.append(dict(h="collection", n=2, members=members, thr=thr, same_names=True))
     big = [(12, [130, 5, 144], "minimal"), (12, [130, 5, 144], "soln_cat"), (12, [128, 127], "full"), (16, [255, 256, 1], "minimal"), (16, [255, 256, 1], "soln_cat"),
            (4, [3] * 99, "default_threshold"), (4, [2, 5] * 50, "default_threshold"), (4, [4] * 101, "default_threshold")]
     if not q:
@@ -449,7 +456,7 @@ META = dict(
     bounds=dict(
         quick="in memory; every connection bit and every solution cell symbolic; all ragged solution-length vectors over 1..3 for 1..3 mazes on 2x2 / 3x3 for the two "
               "minimal formats; full format on 2x2 with symbolic solution cells; serialize()/load() with the minimal-format threshold symbolic (or None); collections of "
-              "2-3 members incl. empty members; datasets re-assembled from loaded mazes (stale maze count, metadata already collected); plus concrete (non-symbolic) round trips at sizes beyond the symbolic bound: grids 12 and 16 with solution "
+              "2-3 members incl. empty members and members that share a name; datasets re-assembled from loaded mazes (stale maze count, metadata already collected); plus concrete (non-symbolic) round trips at sizes beyond the symbolic bound: grids 12 and 16 with solution "
               "lengths 127..256, 99 / 100 / 101 mazes against the default threshold",
         thorough="length vectors up to 4 mazes / lengths 5, more collections, concrete runs on 20x20 with 400-cell solutions and 120 mazes",
     ),
